@@ -55,6 +55,16 @@ def run(repo, run, tier):
         run.check(R5, "ast.EnumNode.__init__:%s" % key, ok,
                   "%s must be formatted from options.%s_template" % (key, key), am.loc(name_loop))
 
+    # the member table belongs to this enumeration: a fresh dict per node, no class-level containers
+    tabname = table.split(".")[-1] if table else None
+    fresh = [a for a in ast.walk(f) if isinstance(a, ast.Assign) and tabname and pyflow.is_name(a.targets[0], tabname)]
+    ecls = am.cls("EnumNode")
+    shared = [am.seg(st) for st in ecls.body if isinstance(st, ast.Assign) and isinstance(st.value, (ast.Dict, ast.List, ast.Set, ast.Call))]
+    run.check(R5, "ast.EnumNode:own-member-table", len(fresh) == 1 and isinstance(fresh[0].value, ast.Dict) and not fresh[0].value.keys
+              and not shared,
+              "the per-member format table must be a fresh dict created in __init__ (found %s; class-level containers %s): "
+              "a shared table lets a later enumeration with the same member names overwrite the names and values of an "
+              "earlier one" % ([am.seg(a) for a in fresh], shared), am.loc(f))
     # ---- R1 twin assignments in the value loop
     def assigns_to(name, root):
         out = []
@@ -309,6 +319,40 @@ def run(repo, run, tier):
     run.check(R5, "declast.ExprParser.expression:as-written", ok,
               "BinaryOp(lhs, op, rhs) must be built from the operator token and the parsed right operand exactly as "
               "written (each assigned once per iteration): rewriting `a + -b` or `a - -b` changes values", dm.loc(ex))
+    # printers are pure functions of the node and the visitor's table: the subclass that rewrites identifiers shares
+    # them, so nothing may be remembered on the node or in the visitor between calls
+    for q in ("PrintNode.visit_BinaryOp", "PrintNode.visit_UnaryOp", "PrintNode.visit_ParenExpr", "PrintNode.visit_Identifier",
+              "PrintNodeIdentifier.visit_Identifier"):
+        fn = tm.func(q)
+        stores = [tm.seg(a) for a in ast.walk(fn) if isinstance(a, (ast.Assign, ast.AugAssign)) for t in
+                  (a.targets if isinstance(a, ast.Assign) else [a.target]) if isinstance(t, (ast.Attribute, ast.Subscript))]
+        memo = [tm.seg(c) for c in ast.walk(fn) if isinstance(c, ast.Call) and (pyflow.call_name(c) or "") in ("getattr", "setattr", "hasattr")]
+        run.check(R5, "todict.%s:pure" % q, not stores and not memo,
+                  "the printer stores or looks up state (%s): text printed for one language (raw C++ names) is reused where "
+                  "identifiers must be rewritten for another" % (stores + memo)[:2], tm.loc(fn))
+    # a token is captured before the parser advances past it
+    nadv = 0
+    for q, fn in sorted(dm.functions().items()):
+        if not q.startswith(("ExprParser.", "Parser.")):
+            continue
+        for blk_owner in ast.walk(fn):
+            for fld in ("body", "orelse"):
+                blk = getattr(blk_owner, fld, None)
+                if not (isinstance(blk, list) and blk and isinstance(blk[0], ast.stmt)):
+                    continue
+                adv = [i for i, st in enumerate(blk) if isinstance(st, ast.Expr) and isinstance(st.value, ast.Call)
+                       and (pyflow.call_name(st.value) or "") == "self.next"]
+                if not adv:
+                    continue
+                for st in blk[adv[0] + 1:]:
+                    for c in ast.walk(st):
+                        if isinstance(c, ast.Call) and isinstance(c.func, ast.Name) and c.func.id[:1].isupper():
+                            nadv += 1
+                            late = [dm.seg(a) for a in c.args if (pyflow.dotted(a) or "") in ("self.token.value", "self.token.typ")]
+                            run.check(R5, "declast.%s:%s(token-after-advance)" % (q, c.func.id), not late,
+                                      "%s(...) is built from %s after self.next(): that is the *following* token (`-3` is "
+                                      "read as UnaryOp('3', 3))" % (c.func.id, late), dm.loc(c))
+    run.floor(R5, "node constructions after an advance", nadv, 1)
     # print of binary / paren expressions keeps structure
     bo = tm.func("PrintNode.visit_BinaryOp")
     rets = [r for r in ast.walk(bo) if isinstance(r, ast.Return)]
